@@ -9,13 +9,12 @@ pub open spec fn unit_split(N: int, U: int, q: int, l: int) -> bool { N == q * U
 ///   Inexact(r, adj) otherwise: r = mm * u with mm the integer prescribed by the mode for x/u (|r - x| < u, side by
 ///                   mode, <= u/2 with the tie rule for the Half modes), r != x, and adj = mm - q for a q with
 ///                   |x/u - q| < 1  (hence AddOne ==> r > x and SubOne ==> r < x).
-/// The returned repr is normalized.
 pub open spec fn rounded_at<const B: Word>(m: Mode, b: int, N: int, F: int, j: nat, ret: Rounded<Repr<B>>) -> bool {
     let U = ipow(b, j);
     exists|q: int, l: int| #[trigger] unit_split(N, U, q, l) && match ret {
-        Approximation::Exact(r) => l == 0 && norm_of(b, q, F + j, r.significand.v(), r.exponent as int),
+        Approximation::Exact(r) => l == 0 && same_value(b, r.significand.v(), r.exponent as int, q, F + j),
         Approximation::Inexact(r, adj) => l != 0 && round_def(m, N, U, q + adj_int(adj))
-            && norm_of(b, q + adj_int(adj), F + j, r.significand.v(), r.exponent as int),
+            && same_value(b, r.significand.v(), r.exponent as int, q + adj_int(adj), F + j),
     }
 }
 
@@ -32,7 +31,7 @@ pub open spec fn unit_shift(rp: int, nd: int, k: int, low_zero: bool) -> int {
 pub open spec fn sum_post<const B: Word>(m: Mode, b: int, p: usize, is_sub: bool, S: int, E: int, L: int, k: int,
                                          ret: Rounded<Repr<B>>) -> bool {
     if p == 0 {
-        ret matches Approximation::Exact(r) && norm_of(b, S, E, r.significand.v(), r.exponent as int)
+        ret matches Approximation::Exact(r) && same_value(b, r.significand.v(), r.exponent as int, S, E)
     } else {
         let rp = p + (if is_sub { 1int } else { 0int });
         let j = k + unit_shift(rp, ndigits(b, S) as int, k, L == 0);
@@ -95,7 +94,7 @@ pub open spec fn add_post<const B: Word>(m: Mode, b: int, p: usize, Sl: int, El:
     let N = exact_sum(b, Sl, El, sg, Sr, Er);
     let F = imin(El, Er);
     if p == 0 {
-        ret matches Approximation::Exact(r) && norm_of(b, N, F, r.significand.v(), r.exponent as int)
+        ret matches Approximation::Exact(r) && same_value(b, r.significand.v(), r.exponent as int, N, F)
     } else {
         exists|j: nat| #[trigger] rounded_at(m, b, N, F, j, ret)
     }
@@ -291,7 +290,7 @@ pub proof fn lemma_far_result<const B: Word>(m: Mode, b: int, Sa: int, s: int, s
         Approximation::Inexact(r, adj) => {
             let (q, l) = choose|q: int, l: int| #[trigger] unit_split(N1, U1, q, l) && l != 0
                 && round_def(m, N1, U1, q + adj_int(adj))
-                && norm_of(b, q + adj_int(adj), F1 + j1, r.significand.v(), r.exponent as int);
+                && same_value(b, r.significand.v(), r.exponent as int, q + adj_int(adj), F1 + j1);
             lemma_far_transfer(m, Q, U1, s, U, sb, q, l, adj);
             assert(unit_split(N, U, q, (Q - q) * U + sb));
         },
@@ -304,4 +303,188 @@ pub proof fn lemma_ipow_small(b: int)
 {
     reveal_with_fuel(ipow, 3);
     assert(b * b >= 4) by (nonlinear_arith) requires b >= 2;
+}
+/// the digit count ignores the sign
+pub proof fn lemma_ndigits_neg(b: int, v: int)
+    requires b >= 2
+    ensures ndigits(b, -v) == ndigits(b, v)
+{
+    broadcast use ax_ndigits;
+    if v != 0 { lemma_ndigits_unique(b, -v, ndigits(b, v)); }
+}
+
+/// the definition of the modes is invariant under a change of scale
+pub proof fn lemma_round_def_scale(m: Mode, X: int, D: int, r: int, c: int)
+    requires D > 0, c > 0, round_def(m, X, D, r)
+    ensures round_def(m, X * c, D * c, r)
+{
+    let R = r * D;
+    let (X2, D2) = (X * c, D * c);
+    let R2 = r * D2;
+    assert(R2 == R * c) by (nonlinear_arith) requires R2 == r * D2, D2 == D * c, R == r * D;
+    let e = R - X;
+    let e2 = R2 - X2;
+    assert(e2 == e * c) by (nonlinear_arith) requires e2 == R2 - X2, R2 == R * c, X2 == X * c, e == R - X;
+    assert(-D2 < e2 && e2 < D2) by (nonlinear_arith) requires e2 == e * c, D2 == D * c, -D < e, e < D, c > 0;
+    let (a, a2) = (iabs(e), iabs(e2));
+    assert(a2 == a * c) by (nonlinear_arith) requires e2 == e * c, c > 0, a == (if e < 0 { -e } else { e }), a2 == (if e2 < 0 { -e2 } else { e2 });
+    assert((2 * a <= D) == (2 * a2 <= D2)) by (nonlinear_arith) requires a2 == a * c, D2 == D * c, c > 0;
+    assert((2 * a == D) == (2 * a2 == D2)) by (nonlinear_arith) requires a2 == a * c, D2 == D * c, c > 0;
+    assert((R >= X) == (R2 >= X2)) by (nonlinear_arith) requires R2 == R * c, X2 == X * c, c > 0;
+    assert((R <= X) == (R2 <= X2)) by (nonlinear_arith) requires R2 == R * c, X2 == X * c, c > 0;
+    assert((R >= 0) == (R2 >= 0) && (R <= 0) == (R2 <= 0)) by (nonlinear_arith) requires R2 == R * c, c > 0;
+    assert((X >= 0) == (X2 >= 0) && (X <= 0) == (X2 <= 0)) by (nonlinear_arith) requires X2 == X * c, c > 0;
+}
+/// a single correct rounding to p digits (round_val, as `repr_round` delivers it) is in particular a rounding of the
+/// exact value at some unit (rounded_at)
+pub proof fn lemma_round_val_at<const B: Word>(m: Mode, b: int, p: usize, N: int, F: int, ret: Rounded<Repr<B>>)
+    requires b >= 2, round_val(m, b, p, N, F, ret)
+    ensures exists|j: nat| #[trigger] rounded_at(m, b, N, F, j, ret),
+        p == 0 ==> (ret matches Approximation::Exact(r) && same_value(b, r.significand.v(), r.exponent as int, N, F)),
+{
+    broadcast use ax_ndigits;
+    let (s0, e0) = choose|s0: int, e0: int| #[trigger] norm_of(b, N, F, s0, e0) && round_once(m, b, p, s0, e0, ret);
+    lemma_norm_of(b, N, F, s0, e0);
+    match ret {
+        Approximation::Exact(r) => {
+            assert(ipow(b, 0) == 1);
+            assert(N == N * 1 + 0);
+            assert(unit_split(N, ipow(b, 0), N, 0));
+            assert(rounded_at(m, b, N, F, 0, ret));
+        },
+        Approximation::Inexact(r, adj) => {
+            let nd = ndigits(b, s0);
+            let shift = (nd - p) as nat;
+            let mm = choose|mm: int| #[trigger] round_witness(m, b, s0, shift, mm, adj)
+                && same_value(b, r.significand.v(), r.exponent as int, mm, e0 + shift);
+            assert(s0 != 0);
+            let t = (e0 - F) as nat;
+            let (c, u) = (ipow(b, t), ipow(b, shift));
+            lemma_ipow_pos(b, t);
+            lemma_ipow_pos(b, shift);
+            lemma_ipow_add(b, t, shift);
+            let j = t + shift;
+            let U = ipow(b, j);
+            assert(U == c * u);
+            assert(N == s0 * c) by {
+                if e0 == F { assert(c == 1); assert(N * 1 == N); }
+            }
+            let q = mm - adj_int(adj);
+            let l0 = s0 - q * u;
+            let l = l0 * c;
+            assert(N == q * U + l) by (nonlinear_arith) requires N == s0 * c, l0 == s0 - q * u, l == l0 * c, U == c * u;
+            let (al0, al) = (iabs(l0), iabs(l));
+            assert(al == al0 * c) by (nonlinear_arith) requires l == l0 * c, c > 0, al0 == (if l0 < 0 { -l0 } else { l0 }), al == (if l < 0 { -l } else { l });
+            assert(al < U) by (nonlinear_arith) requires al == al0 * c, al0 < u, U == c * u, c > 0;
+            assert(unit_split(N, U, q, l));
+            if l0 == 0 {
+                lemma_round_exact(m, q, u);
+                lemma_round_def_unique(m, s0, u, mm, q);
+                assert(false);
+            }
+            assert(l != 0) by (nonlinear_arith) requires l == l0 * c, c > 0, l0 != 0;
+            lemma_round_def_scale(m, s0, u, mm, c);
+            assert(u * c == U) by (nonlinear_arith) requires U == c * u;
+            assert(rounded_at(m, b, N, F, j, ret));
+        },
+    }
+}
+/// the top-level statement proved for add / sub (see add_post) as a function of the exact sum N * b^F
+pub open spec fn sum_c03<const B: Word>(m: Mode, b: int, p: usize, N: int, F: int, ret: Rounded<Repr<B>>) -> bool {
+    if p == 0 {
+        ret matches Approximation::Exact(r) && same_value(b, r.significand.v(), r.exponent as int, N, F)
+    } else {
+        exists|j: nat| #[trigger] rounded_at(m, b, N, F, j, ret)
+    }
+}
+/// the defect region of add_defect_region for whichever operand has the larger exponent
+pub open spec fn add_defect(m: Mode, b: int, p: usize, Sl: int, El: int, sg: Sign, Sr: int, Er: int) -> bool {
+    Sl != 0 && Sr != 0 && (
+        (El > Er && add_defect_region(m, b, p, Sl, El, true_sub(Sl, sg, Sr), Sr, Er))
+        || (El < Er && add_defect_region(m, b, p, Sr, Er, true_sub(Sl, sg, Sr), Sl, El)))
+}
+/// an operand that fits the precision passes `repr_round(_ref)` unchanged; adding zero to it is exact
+pub proof fn lemma_add_zero<const B: Word>(m: Mode, b: int, p: usize, S: int, E: int, N: int, F: int, ret: Rounded<Repr<B>>)
+    requires b >= 2, same_value(b, S, E, N, F),
+        ret matches Approximation::Exact(r) && r.significand.v() == S && r.exponent == E,
+    ensures sum_c03(m, b, p, N, F, ret)
+{
+    assert(ipow(b, 0) == 1);
+    assert(N == N * 1 + 0);
+    assert(unit_split(N, ipow(b, 0), N, 0));
+    assert(rounded_at(m, b, N, F, 0, ret));
+}
+/// exact_sum with a zero operand is the other operand
+pub proof fn lemma_exact_sum_zero(b: int, S: int, E: int, sg: Sign)
+    requires b >= 2
+    ensures
+        same_value(b, sgn_apply(sg, S), E, exact_sum(b, 0, 0, sg, S, E), imin(0, E)),
+        same_value(b, S, E, exact_sum(b, S, E, sg, 0, 0), imin(E, 0)),
+{
+    assert(ipow(b, 0) == 1);
+    let s = sgn_apply(sg, S);
+    if E >= 0 {
+        let u = ipow(b, E as nat);
+        assert(0 * 1 + s * u == s * u);
+        assert(S * u + sgn_apply(sg, 0) * 1 == S * u);
+    } else {
+        let u = ipow(b, (-E) as nat);
+        assert(0 * u + s * 1 == s) by (nonlinear_arith);
+        assert(S * 1 + sgn_apply(sg, 0) * u == S) by (nonlinear_arith) requires sgn_apply(sg, 0) == 0;
+    }
+}
+/// `context.repr_round(Repr::new(X, E))` as ONE expression (the intermediate repr cannot be named): whatever normalized
+/// representation (s1, e1) `Repr::new` returns satisfies the range precondition of repr_round, and rounding it is a
+/// rounding of X * b^E
+pub proof fn lemma_new_then_round<const B: Word>(m: Mode, b: int, p: usize, X: int, E: int)
+    requires b >= 2, E + ndigits(b, X) <= isize::MAX, ndigits(b, X) <= isize::MAX
+    ensures
+        forall|s1: int, e1: int| #[trigger] same_value(b, s1, e1, X, E) && (s1 == 0 || s1 % b != 0) && (X == 0 ==> s1 == 0 && e1 == 0)
+            ==> !(s1 == 0 && e1 != 0) && e1 + ndigits(b, s1) <= isize::MAX && ndigits(b, s1) <= isize::MAX,
+        forall|s1: int, e1: int, rr: Rounded<Repr<B>>| #[trigger] same_value(b, s1, e1, X, E) && (s1 == 0 || s1 % b != 0)
+            && #[trigger] round_once(m, b, p, s1, e1, rr) ==> round_val(m, b, p, X, E, rr) && sum_c03(m, b, p, X, E, rr),
+{
+    broadcast use ax_ndigits;
+    assert forall|s1: int, e1: int| #[trigger] same_value(b, s1, e1, X, E) && (s1 == 0 || s1 % b != 0) && (X == 0 ==> s1 == 0 && e1 == 0)
+        implies !(s1 == 0 && e1 != 0) && e1 + ndigits(b, s1) <= isize::MAX && ndigits(b, s1) <= isize::MAX by {
+        assert(norm_of(b, X, E, s1, e1));
+        lemma_norm_of(b, X, E, s1, e1);
+    }
+    assert forall|s1: int, e1: int, rr: Rounded<Repr<B>>| #[trigger] same_value(b, s1, e1, X, E) && (s1 == 0 || s1 % b != 0)
+        && #[trigger] round_once(m, b, p, s1, e1, rr) implies round_val(m, b, p, X, E, rr) && sum_c03(m, b, p, X, E, rr) by {
+        assert(norm_of(b, X, E, s1, e1));
+        lemma_round_val_at::<B>(m, b, p, X, E, rr);
+    }
+}
+
+/// the plain value (flag dropped by `.value()`) of a result satisfying add_post
+pub open spec fn add_post_of<const B: Word>(m: Mode, b: int, p: usize, Sl: int, El: int, sg: Sign, Sr: int, Er: int, r: Repr<B>) -> bool {
+    exists|rr: Rounded<Repr<B>>| #[trigger] rd_val0(rr) == r && add_post(m, b, p, Sl, El, sg, Sr, Er, rr)
+}
+/// zero shortcut of the operator forms: the other operand (with the sign applied) is returned as it is (any repr with
+/// that significand value and exponent: the returned object may be a clone)
+pub proof fn lemma_add_zero_of<const B: Word>(m: Mode, b: int, p: usize, Sl: int, El: int, sg: Sign, Sr: int, Er: int)
+    requires b >= 2, (Sl == 0 && El == 0) || (Sr == 0 && Er == 0),
+    ensures forall|r: Repr<B>|
+        ((Sl == 0 && El == 0 && r.significand.v() == sgn_apply(sg, Sr) && r.exponent == Er)
+            || (Sr == 0 && Er == 0 && r.significand.v() == Sl && r.exponent == El))
+        ==> #[trigger] add_post_of(m, b, p, Sl, El, sg, Sr, Er, r)
+{
+    assert forall|r: Repr<B>|
+        ((Sl == 0 && El == 0 && r.significand.v() == sgn_apply(sg, Sr) && r.exponent == Er)
+            || (Sr == 0 && Er == 0 && r.significand.v() == Sl && r.exponent == El))
+        implies #[trigger] add_post_of(m, b, p, Sl, El, sg, Sr, Er, r) by {
+        let rr = Approximation::<Repr<B>, Rounding>::Exact(r);
+        let N = exact_sum(b, Sl, El, sg, Sr, Er);
+        let F = imin(El, Er);
+        if Sl == 0 && El == 0 && r.significand.v() == sgn_apply(sg, Sr) && r.exponent == Er {
+            lemma_exact_sum_zero(b, Sr, Er, sg);
+            lemma_add_zero::<B>(m, b, p, sgn_apply(sg, Sr), Er, N, F, rr);
+        } else {
+            lemma_exact_sum_zero(b, Sl, El, sg);
+            lemma_add_zero::<B>(m, b, p, Sl, El, N, F, rr);
+        }
+        assert(rd_val0(rr) == r);
+        assert(add_post(m, b, p, Sl, El, sg, Sr, Er, rr));
+    }
 }
